@@ -54,6 +54,18 @@ func verifRLock(mu *sync.RWMutex, site string) {
 	}
 }
 
+func verifMutex(mu *sync.Mutex, site string) {
+	if h := verifHooks.Load(); h != nil && h.Lock != nil {
+		h.Lock(func() bool {
+			if mu.TryLock() {
+				mu.Unlock()
+				return true
+			}
+			return false
+		}, site)
+	}
+}
+
 // VerifNewRootScope is NewRootScope with an explicit registry shard count
 // (0 = derive from GOMAXPROCS as the public constructor does).
 func VerifNewRootScope(opts ScopeOptions, interval time.Duration, shardCount uint) (Scope, io.Closer) {
